@@ -24,7 +24,9 @@ RULE = ("reduce(C, coll[, zero]) with an associative-commutative combiner C (a t
 ASSUMPTIONS = ["same-cycle erase + re-write of one key is not generated (F6/F7 are owned by C05)",
                "intermediate aggregates inside a cycle are not constrained: values are read at the end of the combiner's evaluation"]
 
-OPS = {"sum": lambda a, b: a + b, "max": max, "xor": lambda a, b: a ^ b, "min": min}
+OPS = {"sum": lambda a, b: a + b, "max": max, "xor": lambda a, b: a ^ b, "min": min,
+       "mul": lambda a, b: ((a * b + 2 ** 63) % 2 ** 64) - 2 ** 63}      # 64-bit wrap-around, as the engine's Int
+DIRECT = {"sum": "add_", "max": "max_", "min": "min_", "mul": "mul_"}   # the operator ITSELF as the function value (lifted-kernel path of the reduce node)
 LIB = {"sum": "add_", "max": "max_", "xor": "bit_xor", "min": "min_"}   # the library's own binary operators as combiners
 
 
@@ -48,6 +50,10 @@ def case(draw, tier):
     lib = (not two_node) and draw(st.integers(0, 2)) == 0
     if lib and draw(st.booleans()):
         comb = "min"
+    # ... or the library operator passed directly as the function (not wrapped in a sub-graph)
+    direct = lib and draw(st.booleans())
+    if direct:
+        comb = draw(st.sampled_from(["sum", "max", "min", "mul"]))
     zero = draw(st.sampled_from([None, None, 1000, 7, 0]))
     kind = draw(st.sampled_from(["TSD", "TSD", "TSD", "TSL", "DTSL"]))
     if kind == "TSD":
@@ -73,7 +79,7 @@ def case(draw, tier):
     zero_script = None
     if zero is not None and kind != "TSL" and draw(st.integers(0, 2)) == 0:      # (no reduce overload takes a fixed-size list with a live zero)
         zero_script = [[start, zero]] + [[t, draw(st.sampled_from([0, 3, 7, 1000]))] for t in draw(gen.time_set(start + 1, start + horizon - 1, 0, 3))]
-    return {"start": start, "end": start + horizon, "comb": comb, "two_node": two_node, "lib": lib, "zero": zero, "zero_script": zero_script, "kind": kind, "n": n, "script": script}
+    return {"direct": direct, "start": start, "end": start + horizon, "comb": comb, "two_node": two_node, "lib": lib, "zero": zero, "zero_script": zero_script, "kind": kind, "n": n, "script": script}
 
 
 @st.composite
@@ -181,14 +187,14 @@ def check(case, ctx) -> Result:
             {"id": "c1", "op": "node", "ins": ["c0", {"arg": 1}], "out": "TS[int]", "fn": comb, "log_inputs": False}]}
     elif case.get("lib"):
         C = {"params": ["TS[int]", "TS[int]"], "names": ["lhs", "rhs"], "out": "TS[int]", "ret": "c",
-             "stmts": [{"id": "c", "op": "op", "name": LIB[comb], "args": [{"ts": {"arg": 0}}, {"ts": {"arg": 1}}], "has_out": True}]}
+             "stmts": [{"id": "c", "op": "op", "name": LIB.get(comb, "mul_"), "args": [{"ts": {"arg": 0}}, {"ts": {"arg": 1}}], "has_out": True}]}
     else:
         C = {"params": ["TS[int]", "TS[int]"], "names": ["lhs", "rhs"], "out": "TS[int]", "ret": "c",
              "stmts": [{"id": "c", "op": "node", "ins": [{"arg": 0}, {"arg": 1}], "out": "TS[int]", "fn": comb, "log_inputs": False}]}
     schema = ("TSD", "int", ("TS", "int")) if case["kind"] == "TSD" else ("TSL", ("TS", "int"), case["n"])
     dyn = {}   # dynamic list model: index -> value
     zs = case.get("zero_script")
-    args = [{"fn": "C"}, {"ts": "d"}] + ([{"ts": "z"}] if zs else [{"sc": case["zero"], "t": "int"}] if case["zero"] is not None else [])
+    args = [{"fn_op": DIRECT[comb]} if case.get("direct") else {"fn": "C"}, {"ts": "d"}] + ([{"ts": "z"}] if zs else [{"sc": case["zero"], "t": "int"}] if case["zero"] is not None else [])
     prog = {"start": case["start"], "end": case["end"], "subs": {"C": C}, "stmts": [
         {"id": "d", "op": "src", "schema": tm.schema_str(schema), "script": case["script"]}] +
         ([{"id": "z", "op": "src", "schema": "TS[int]", "script": [[t, [{"k": "set", "v": v}]] for t, v in zs]}] if zs else []) + [
@@ -298,6 +304,8 @@ def check(case, ctx) -> Result:
         res.labels.append("subgraph_combiner")
     if case.get("lib"):
         res.labels.append("library_operator_combiner")
+    if case.get("direct"):
+        res.labels.append("library_operator_passed_directly")
     if prev_live >= 9:
         res.labels.append("nine_plus_live_at_end")
     res.summary = {"ticks_seen": sorted(seen)[:20], "comb": comb, "zero": zero}
